@@ -37,7 +37,7 @@ def rule_R1_pub(text, kind, in_trait_impl):
             text = pre + 'pub ' + text[m.end():]
             n = 1
         return text, n
-    if kind in ('struct', 'enum', 'const', 'type'):
+    if kind in ('struct', 'enum', 'const', 'type') and not in_trait_impl:
         m = re.match(r'^((?:#\[[^\]]*\]\s*)*)(pub\s*\([^)]*\)\s*|pub\s+)?', text)
         pre, vis = m.group(1), m.group(2)
         if vis is None or vis.strip() != 'pub':
